@@ -141,7 +141,7 @@ def run(prog, rep):
 
 # functions that wrap() / fill() run through: a panic or hang in any of them is a failure of every property that is
 # stated "for all inputs" of wrap / fill
-WRAP_PATH_PREFIXES = ("crate::wrap::", "crate::fill::fill", "crate::core::", "crate::word_separators::", "crate::word_splitters::",
+WRAP_PATH_PREFIXES = ("crate::wrap::", "crate::fill::fill_slow_path", "crate::fill::fill::", "crate::core::", "crate::word_separators::", "crate::word_splitters::",
                       "crate::wrap_algorithms::", "crate::line_ending::LineEnding", "crate::<core::", "crate::options::",
                       "crate::<options::", "crate::<word_", "crate::<wrap_")
 _LEMMA_ACTIVE = [False]
@@ -166,7 +166,8 @@ def _lemma_wrappath(prog):
         pass
     for v in rep.violations:
         fn = v.key.split("|")[1] if "|" in v.key else ""
-        if v.key not in known and v.rule in ("C04.R1", "C04.R2", "C04.R3") and fn.startswith(WRAP_PATH_PREFIXES) \
+        if v.key not in known and v.rule in ("C04.R1", "C04.R2", "C04.R3") \
+                and (fn.startswith(WRAP_PATH_PREFIXES) or fn == "crate::fill::fill") \
                 and "relies on lemma" not in v.message:
             return False
     return True
